@@ -168,8 +168,31 @@ func (e *Expr) rewrite() *ast.SubjectSetRewrite {
 	return &ast.SubjectSetRewrite{Operation: ast.OperatorOr, Children: ast.Children{c}}
 }
 
+// CfgRef names a configuration of the catalogue so that it can be written to a
+// replay file and rebuilt in another process: expression #Idx among those with
+// exactly N leaves over Leaves, plus typing and mode.
+type CfgRef struct {
+	Leaves []int
+	N, Idx int
+	Typed  int
+	Strict bool
+}
+
+var exprMemo = map[string]map[int][]*Expr{}
+
+func (r CfgRef) Resolve() *CfgSpec {
+	k := fmt.Sprint(r.Leaves)
+	if exprMemo[k] == nil {
+		exprMemo[k] = map[int][]*Expr{}
+	}
+	c := mkCfg(exprs(r.N, r.Leaves, exprMemo[k])[r.Idx], r.Typed, r.Strict)
+	c.Ref = r
+	return c
+}
+
 // CfgSpec is one configuration of the catalogue.
 type CfgSpec struct {
+	Ref    CfgRef
 	Name   string
 	Expr   *Expr
 	Typed  int // 0: untyped literal AST; 1: a has a SubjectSet<> type; 2: a has no SubjectSet<> type
@@ -185,11 +208,14 @@ func mkCfg(e *Expr, typed int, strict bool) *CfgSpec {
 	b := ast.Relation{Name: "b"}
 	trvA := e.usesLeaf(LTrvAP) || e.usesLeaf(LTrvAB)
 	trvB := e.usesLeaf(LTrvBA)
+	needC := false
 	switch typed {
 	case 1:
 		if trvA {
-			// a traverse source must resolve to namespaces declaring the target relation (no self-referential SubjectSet)
-			a.Types = []ast.RelationType{{Namespace: "n"}, {Namespace: "n", Relation: "b"}}
+			// every type of a traverse source must resolve to namespaces that declare the target
+			// relation: SubjectSet<n,"c"> with c: n[] does (and is not self-referential)
+			a.Types = []ast.RelationType{{Namespace: "n"}, {Namespace: "n", Relation: "c"}}
+			needC = true
 		} else {
 			a.Types = []ast.RelationType{{Namespace: "User"}, {Namespace: "n", Relation: "b"}}
 		}
@@ -210,7 +236,11 @@ func mkCfg(e *Expr, typed int, strict bool) *CfgSpec {
 			b.Types = []ast.RelationType{{Namespace: "User"}, {Namespace: "n", Relation: "a"}}
 		}
 	}
-	rels := []ast.Relation{a, b, {Name: "p", SubjectSetRewrite: e.rewrite()}}
+	rels := []ast.Relation{a, b}
+	if needC {
+		rels = append(rels, ast.Relation{Name: "c", Types: []ast.RelationType{{Namespace: "n"}}})
+	}
+	rels = append(rels, ast.Relation{Name: "p", SubjectSetRewrite: e.rewrite()})
 	if e.usesLeaf(LPermQ) {
 		rels = append(rels, ast.Relation{Name: "q", SubjectSetRewrite: &ast.SubjectSetRewrite{Operation: ast.OperatorOr, Children: ast.Children{&ast.ComputedSubjectSet{Relation: "b"}}}})
 	}
